@@ -18,6 +18,13 @@ REQUIRED = [P + n for n in [
     "widen_keeps_level",
     # indexed formats
     "indexed_fetch", "indexed_store", "indexed_store_fetch_id",
+    # memory: frame, read-back, scanline = map of pixel
+    "gen_bpp", "store_changes_only_addressed_pixel", "store_then_fetch_raw", "store_then_fetch_pixel",
+    "fetch_scanline_is_map_of_fetch_pixel", "storeScanline_eq_foldl", "store_scanline_frame",
+    # wide paths over exact rationals (partial: IEEE rounding not modelled)
+    "float_roundtrip_partial", "float_ends_partial", "float_strict_mono_partial", "float_clamps_partial",
+    "float_path_is_replication_partial", "wide10_store_fetch_id_partial", "srgb_store_fetch_id_partial",
+    "srgb_table_monotone_partial",
 ]]
 
 GENERAL = "fast mmx sse2 ssse3"
